@@ -1,4 +1,5 @@
 import json
+import os
 import tarfile
 import shutil
 import numpy as np
@@ -142,8 +143,14 @@ class DataDir(object):
         return self._delete_files(filenames=filenames)
 
     def _check_writeprotected(self, filename, accessmode):
-        if accessmode != 'r' and filename in self._protectedpaths:
-            raise OSError(f'Cannot modify protected file "{filename}"')
+        if accessmode != 'r':
+            # compare normalized paths, so that alternative spellings of a
+            # protected name ('./x', Path('x'), 'sub/../x', 'x/y') are caught
+            basepath = os.path.abspath(self._path)
+            filepath = os.path.abspath(os.path.join(basepath, filename))
+            relparts = Path(os.path.relpath(filepath, basepath)).parts
+            if relparts and relparts[0] in self._protectedpaths:
+                raise OSError(f'Cannot modify protected file "{filename}"')
 
     # FIXME overwrite parameter?
     @contextmanager
